@@ -103,7 +103,25 @@ def s_rollup(ctx, shape, limited, replaced=False):
         except sysh.Unstable:
             ctx.note("unstable")
             return
-        for nd in shape["nodes"]:
+        if replaced == "subtree":
+            # every non-source component is deleted (sources keep their place) and the same tree is built again: the new components land
+            # on the node indices the old ones had
+            from ..sysh import node_parents as node_parents_of
+            tops = [nd["name"] for nd in shape["nodes"] if nd["kind"] != "Source" and all(info[p]["kind"] == "Source" for p in node_parents_of(nd))]
+            for nm in tops:
+                if nm in sysobj._g.attrs["nodes"]:
+                    sysobj.del_comp(nm, del_childs=True)
+            for nd in shape["nodes"]:
+                if nd["kind"] == "Source":
+                    continue
+                ps = node_parents_of(nd)
+                comp = construct(nd["kind"], nd["name"], info[nd["name"]]["P"], limits=lims.get(nd["name"]))
+                kw = {"rail": nd["rail"]} if nd.get("rail") else {}
+                sysobj.add_comp(ps if nd["kind"] == "PMux" else ps[0], comp=comp, **kw)
+                conf = info[nd["name"]].get("conf")
+                if conf:
+                    sysobj.set_comp_phases(nd["name"], conf)
+        for nd in shape["nodes"] if replaced is True else ():
             if nd["name"] in limited:
                 kw = {"rail": nd["rail"]} if nd.get("rail") else {}
                 if nd.get("group"):
@@ -241,5 +259,7 @@ def instances(tier):
     out.append(Instance("C09", "c09:s_rollup", dict(shape=two, limited={"C": ["io"], "L2": ["vi"]}, replaced=True), name="S/replaced/two-src/io+vi", uf=True,
                         cover=["solved", "some-warning", "replaced"], weight=40))
     out.append(Instance("C09", "c09:s_rollup", dict(shape=one, limited={"G": ["vd"], "L": ["pi"]}, replaced=True), name="S/replaced/one-src/vd+pi", uf=True,
+                        cover=["solved", "some-warning", "replaced"], weight=40))
+    out.append(Instance("C09", "c09:s_rollup", dict(shape=one, limited={"G": ["vd"], "L": ["pi"]}, replaced="subtree"), name="S/rebuilt-subtree/one-src/vd+pi", uf=True,
                         cover=["solved", "some-warning", "replaced"], weight=40))
     return out, META
